@@ -311,7 +311,7 @@ package postgres
 //@ props C16 C17 C02 C20 C01 C04
 //@ records handler
 // every returned record is the row it was scanned from, column by column (C01, C20: what a sweep or a search reports is what is stored)
-//@ site loop 1 backedge assert scanned(rows, record, "ReadPromises")
+//@ site loop 1 backedge assert scanned(rows, record, "ReadPromises") && iterfresh(record)
 // what a sweep reads is exactly what its statement selects on: every returned row satisfies the selection (both back ends, same predicate)
 //@ site loop 1 backedge assert [C04 C16 C17] record.State == 1 && record.Timeout <= cmd.Time
 //@ nopanic C13
@@ -327,7 +327,7 @@ package postgres
 //@ props C16 C17 C02 C20 C14 C01 C04
 //@ records handler
 // every returned record is the row it was scanned from, column by column (C01, C20: what a sweep or a search reports is what is stored)
-//@ site loop 2 backedge assert scanned(rows, record, "SearchPromises")
+//@ site loop 2 backedge assert scanned(rows, record, "SearchPromises") && iterfresh(record)
 // result wiring (C14): every scanned row is returned, in scan order; the cursor value is the last row's sort id
 //@ loop 2 invariant rowsReturned == len(records)
 //@ site loop 2 backedge assert lastSortId == record.SortId && rowsReturned == len(records)
@@ -349,7 +349,7 @@ package postgres
 //@ props C16 C17 C02 C20 C10
 //@ records handler
 // every returned record is the row it was scanned from, column by column (C01, C20: what a sweep or a search reports is what is stored)
-//@ site loop 1 backedge assert scanned(rows, record, "ReadSchedules")
+//@ site loop 1 backedge assert scanned(rows, record, "ReadSchedules") && iterfresh(record)
 // what a sweep reads is exactly what its statement selects on: every returned row satisfies the selection (both back ends, same predicate)
 //@ site loop 1 backedge assert [C10 C16 C17] record.NextRunTime <= cmd.NextRunTime
 //@ nopanic C13
@@ -365,7 +365,7 @@ package postgres
 //@ props C16 C17 C02 C20 C14 C10 C01
 //@ records handler
 // every returned record is the row it was scanned from, column by column (C01, C20: what a sweep or a search reports is what is stored)
-//@ site loop 1 backedge assert scanned(rows, record, "SearchSchedules")
+//@ site loop 1 backedge assert scanned(rows, record, "SearchSchedules") && iterfresh(record)
 // result wiring (C14): every scanned row is returned, in scan order; the cursor value is the last row's sort id
 //@ loop 1 invariant rowsReturned == len(records)
 //@ site loop 1 backedge assert lastSortId == record.SortId && rowsReturned == len(records)
@@ -383,7 +383,7 @@ package postgres
 //@ props C16 C17 C02 C20 C07 C08
 //@ records handler
 // every returned record is the row it was scanned from, column by column (C01, C20: what a sweep or a search reports is what is stored)
-//@ site loop 2 backedge assert scanned(rows, record, "ReadTasks")
+//@ site loop 2 backedge assert scanned(rows, record, "ReadTasks") && iterfresh(record)
 // what a sweep reads is exactly what its statement selects on: every returned row satisfies the selection (both back ends, same predicate)
 //@ site loop 2 backedge assert [C07 C08 C16 C17] (record.State & mask(cmd.States)) != 0 && (record.ExpiresAt <= cmd.Time || record.Timeout <= cmd.Time)
 //@ nopanic C13
@@ -398,7 +398,7 @@ package postgres
 //@ props C16 C17 C02 C20 C07 C08
 //@ records handler
 // every returned record is the row it was scanned from, column by column (C01, C20: what a sweep or a search reports is what is stored)
-//@ site loop 1 backedge assert scanned(rows, record, "ReadEnqueueableTasks")
+//@ site loop 1 backedge assert scanned(rows, record, "ReadEnqueueableTasks") && iterfresh(record)
 // what a sweep reads is exactly what its statement selects on: every returned row satisfies the selection (both back ends, same predicate)
 //@ site loop 1 backedge assert [C08 C16 C17] record.State == task.Init
 //@ nopanic C13
